@@ -296,11 +296,24 @@ func (s *Sched) fireNextTimer(cur *Goroutine) bool {
 	if best == nil {
 		return false
 	}
-	best.active = false
 	if best.when > s.now {
 		s.now = best.when
 	}
-	best.fire(cur)
+	// every timer due at this instant fires before any goroutine runs again
+	// (simultaneous events are simultaneous), in creation order
+	for {
+		var due *vtimer
+		for _, t := range s.timers {
+			if t.active && t.when <= s.now && (due == nil || t.seq < due.seq) {
+				due = t
+			}
+		}
+		if due == nil {
+			break
+		}
+		due.active = false
+		due.fire(cur)
+	}
 	return true
 }
 
